@@ -231,8 +231,9 @@ class LDAWrapper(LinearSolver):
                     xadd = xadd - beta * x
                 bnrm = np.linalg.norm(badd)
                 # Skip vectors that are (numerically) linearly dependent on the database, e.g. dependent columns
-                # within one block of right-hand sides: after normalization they would only contain rounding noise
-                if not np.isfinite(bnrm) or bnrm <= 1e-10 * bnrm0:
+                # within one block of right-hand sides: after normalization they would only contain rounding noise, or
+                # the error left by an iterative solver. What is within the tolerance of the span adds nothing
+                if not np.isfinite(bnrm) or bnrm <= max(1e-10, self.tol) * bnrm0:
                     continue
                 badd /= bnrm
                 xadd /= bnrm
